@@ -35,6 +35,10 @@ def c02() -> int:
     fsx(c, RES + ({"variant": "core", "gas": True, "mechs": ("thirsty", "tiny_thirsty", "ice"), "name": "W-res/energy"},), ("hivemc.bundles", "c02", {}),
         K=2 if quick else 3, H=7 if quick else 9)
     fsx(c, ("hivemc.w_prec", "make", {}), ("hivemc.bundles", "c02", {}), K=2 if quick else 3, H=6 if quick else 8)
+    # tariff rows falling due (ChargingPriceUpdate) and plugs re-rated at run time (scale_charger_rate) while vehicles charge and queue:
+    # both rewrite the per-plug record that also holds the free-plug and waiting counters
+    fsx(c, RES + ({"variant": "core", "gas": True, "prices": True, "mechs": ("thirsty", "small", "thirsty"), "queued_start": True, "name": "W-res/money/queued"},), ("hivemc.bundles", "c02", {}),
+        K=2 if quick else 3, H=6 if quick else 8, needs=["c02:counters_rewritten_while_queued"])
     # every resource with TWO slots (two plugs per type, two stalls): several holders at once, so a double release or a
     # double claim is not masked by the models' own 0 / total guards
     fsx(c, RES + ({"variant": "core", "slots": 2, "low_energy": False, "name": "W-res/two-slots"},), ("hivemc.bundles", "c02", {}), K=3, H=5 if quick else 7,
